@@ -33,14 +33,15 @@ def oracle_values(d, pt):
 
 
 def run_model(pm, d, pt):
-    st = pm.State(**{k: float(v) for k, v in pt["state"].items()})
-    ct = pm.Control(**{k: float(v) for k, v in pt["control"].items()})
+    conv = int if pt.get("ints") else float     # "ints": every value is a (large) Python int
+    st = pm.State(**{k: conv(v) for k, v in pt["state"].items()})
+    ct = pm.Control(**{k: conv(v) for k, v in pt["control"].items()})
     with fk.quiet():
         return fk.by_name(pm.model(float(pt["dt"]), st, ct))
 
 
 def pt_json(pt):
-    return {"dt": core.frac_str(pt["dt"]), **{k: {n: core.frac_str(v) for n, v in pt[k].items()} for k in ("state", "control", "cal")}}
+    return {"ints": bool(pt.get("ints")), "dt": core.frac_str(pt["dt"]), **{k: {n: core.frac_str(v) for n, v in pt[k].items()} for k in ("state", "control", "cal")}}
 
 
 def float_bits(x: float) -> str:
@@ -147,6 +148,22 @@ def settle(ctx, answers, pending):
                           {"model": model, "impl": got, "names": bad}, info)
 
 
+def role_swap_pairs(ctx, drv, pending):
+    """two models in one process with identical update expressions and symbol sets, where a control symbol of the first
+    is a calibration symbol of the second and vice versa (slot order of the positional call differs)"""
+    for _ in range(2 if ctx.quick else 12):
+        d = gen.gen_definition(ctx.rng, n_state=ctx.rng.choice([2, 3]), n_control=1, n_calib=1, n_sensors=0, depth=2)
+        d2 = gen.Definition(d.dt, d.state, d.calibration, d.control, d.state_model, {}, d.transcend)
+        pts = [gen.gen_point(ctx.rng, d) for _ in range(2)]
+        for dd in (d, d2):
+            pp = []
+            for p in pts:
+                vals = dict(p["control"], **p["cal"])
+                pp.append({"dt": p["dt"], "state": p["state"], "control": {s.name: vals[s.name] for s in dd.control},
+                           "cal": {s.name: vals[s.name] for s in dd.calibration}})
+            check_definition(ctx, drv, dd, pp, pending, "role-swap")
+
+
 def run(ctx):
     audit = core.lean_audit("C01")
     drv = core.Driver()
@@ -158,7 +175,17 @@ def run(ctx):
         if transcend and i % 8 == 3:
             gen.force_inverse_composition(ctx.rng, d)
         points = [gen.gen_point(ctx.rng, d) for _ in range(npts)]
+        if not transcend and i % 3 == 0:
+            # a point given entirely as large Python ints (named values need not be floats)
+            big = {"dt": points[0]["dt"], "cal": points[0]["cal"], "ints": True,
+                   "state": {s.name: ctx.rng.randint(10 ** 6, 4 * 10 ** 6) * ctx.rng.choice([1, -1]) for s in d.state},
+                   "control": {s.name: ctx.rng.randint(10 ** 6, 4 * 10 ** 6) for s in d.control}}
+            from fractions import Fraction as _F
+            big["state"] = {k: _F(v) for k, v in big["state"].items()}
+            big["control"] = {k: _F(v) for k, v in big["control"].items()}
+            points.append(big)
         check_definition(ctx, drv, d, points, pending, "transcendental" if transcend else "rational")
+    role_swap_pairs(ctx, drv, pending)
     settle(ctx, drv.run(), pending)
     return core.finish(ctx, audit, NOTE, RULE, PARTIAL)
 
